@@ -320,10 +320,14 @@ namespace Dune
       MPIFuture<TOUT, TIN> future(std::forward<TOUT>(data_out), std::forward<TIN>(data_in));
       auto mpidata_in = future.get_send_mpidata();
       auto mpidata_out = future.get_mpidata();
-      assert(root != me || mpidata_in.size()*procs <= mpidata_out.size());
+      // receive with the signature that is sent: data_in and data_out may describe the same
+      // memory layout with different (count, type) pairs, e.g. FieldVector<K,n> is n x K as
+      // MPIData but one MPITraits<FieldVector<K,n>> element of std::vector<FieldVector<K,n>>
+      assert(root != me || packSize(mpidata_in.size(), mpidata_in.type())*procs
+                             <= packSize(mpidata_out.size(), mpidata_out.type()));
       int outlen = (me==root) * mpidata_in.size();
       MPI_Igather(mpidata_in.ptr(), mpidata_in.size(), mpidata_in.type(),
-                  mpidata_out.ptr(), outlen, mpidata_out.type(),
+                  mpidata_out.ptr(), outlen, mpidata_in.type(),
                   root, communicator, &future.req_);
       return future;
     }
@@ -392,10 +396,12 @@ namespace Dune
       MPIFuture<TOUT, TIN> future(std::forward<TOUT>(data_out), std::forward<TIN>(data_in));
       auto mpidata_in = future.get_send_mpidata();
       auto mpidata_out = future.get_mpidata();
-      assert(mpidata_in.size()*procs <= mpidata_out.size());
+      // receive with the signature that is sent (see igather)
+      assert(packSize(mpidata_in.size(), mpidata_in.type())*procs
+               <= packSize(mpidata_out.size(), mpidata_out.type()));
       int outlen = mpidata_in.size();
       MPI_Iallgather(mpidata_in.ptr(), mpidata_in.size(), mpidata_in.type(),
-                  mpidata_out.ptr(), outlen, mpidata_out.type(),
+                  mpidata_out.ptr(), outlen, mpidata_in.type(),
                   communicator, &future.req_);
       return future;
     }
@@ -466,6 +472,14 @@ namespace Dune
     }
 
   private:
+    //! number of bytes of count items of type in a message
+    long packSize(int count, MPI_Datatype type) const
+    {
+      int size = 0;
+      MPI_Type_size(type, &size);
+      return long(count)*size;
+    }
+
     MPI_Comm communicator;
     int me;
     int procs;
